@@ -517,7 +517,9 @@ def main():
     if thread_ev is not None:
         ev["coverage"]["thread_runs"] = {k: v for k, v in thread_ev.items() if k != "failures"}
         ev["coverage"]["thread_failures"] = len(thread_ev["failures"])
-    if not replay and not os.environ.get("VERIF_NO_EVIDENCE"):
+    # evidence describes /repo's working tree only: runs against a scratch copy (CAT_REPO / VERIF_LEAN set) never write it
+    scratch = os.path.realpath(lib.REPO) != "/repo" or os.path.realpath(lib.LEAN) != os.path.realpath(os.path.join(VERIF, "lean"))
+    if not replay and not scratch and not os.environ.get("VERIF_NO_EVIDENCE"):
         lib.write_json(os.path.join(VERIF, "evidence", "%s.json" % pid), ev)
     for l in out_lines:
         print(l)
